@@ -212,6 +212,22 @@ Theorem C03_roundtrip :
 Proof. exact roundtrip. Qed.
 Print Assumptions C03_roundtrip.
 
+Theorem C03_group_encode_auth :
+  forall (W : world) (s : psess) (stB : pstate) (from : addr) (c : gcand) (others : list gcand)
+         (p : plain_hdr) (x : proto_hdr) (payload wire : list N),
+  world_functional W ->
+  plain_wf p = true -> proto_wf x = true ->
+  mode_enc (ps_mode s) = true ->
+  session_encode W s p x payload = Ok wire ->
+  find_sess (st_sessions stB) from p = None ->
+  plain_group p = true -> plain_get_src p = Some (ps_local_node s) ->
+  is_none (plain_get_dst_groupcast p) && is_none (plain_get_dst_unicast p) = false ->
+  (length wire - length (plain_encode p) <= 1280)%nat ->
+  group_cands stB p = c :: others -> gc_key c = ps_enc_key s ->
+  auth_check W stB from wire = AuthGroup c p (adjust_rel (addr_reliable from) x) payload.
+Proof. exact group_encode_auth. Qed.
+Print Assumptions C03_group_encode_auth.
+
 (** * The monitor run on the implementation *)
 
 Theorem C03_monitor_delivered :
